@@ -69,14 +69,21 @@
     negative") and through [tautology(level)] in [restrict_base].  Therefore
     [restrict] (oxidd-rules-zbdd/src/apply_rec.rs, since the fix f8637cd) keys
     its entries by the operand edges AND [manager.num_levels()]
-    ([get_extended] / [add_extended]).  The per-operation model DD/ZbddBool.v
-    looks Restrict entries up under [[f; vars]], [[]]; here every algorithm runs
-    on the cache as seen through [zcgetN n] / [zcaddN n], [n] = the current
-    number of levels: they append [n] to the numeric operands of the Restrict
-    code ([zkeyN]) and are the identity on every other code.  (Without the
-    level in the key a [restrict] repeated after [add_vars] is served the
+    ([get_extended] / [add_extended]), and so does the per-operation model
+    [zrestrict] of DD/ZbddBool.v (numeric operand [[nlevels s]]): the state
+    machine runs every algorithm on the plain cache [cget] / [cadd].  (Without
+    the level in the key a [restrict] repeated after [add_vars] is served the
     result for the old number of levels: the defect fixed by f8637cd, witness
-    in notes/HISTz.md and Mgr/HistoryZExamples.v.)
+    in notes/HISTz.md and Mgr/HistoryZExamples.v, replayed with the defective
+    variant [zrestrict_unkeyed] below.)
+
+    The code before f8637cd and the view that repairs it.  [zrestrict_unkeyed]
+    is [restrict] as it was (Restrict entries keyed by the operand edges only);
+    [zcgetN n] / [zcaddN n] append [n] to the numeric operands of the Restrict
+    code ([zkeyN]) and are the identity on every other code.  Running the
+    un-keyed algorithm on the cache seen through the view at the current number
+    of levels IS the model [zrestrict] (Mgr/HistoryZCache.v [zrestrict_view]):
+    the fix adds exactly this operand.
 
     [hstep_z] returns [None] when the client's request is malformed (empty
     slot, unknown variable) or when one of the code's [unwrap]s would panic;
@@ -143,14 +150,83 @@ Variable cget : C -> N -> list ref -> list nat -> option ref.
 Variable cadd : C -> N -> list ref -> list nat -> ref -> C.
 Variable cempty : C.
 
-(** the cache as the algorithms of a manager with [n] levels access it:
-    [ZBDDOp::Restrict] entries carry [n] as (last) numeric operand *)
+(** the view of the cache that turns the un-keyed [restrict] of the code before
+    f8637cd into the code as it is: [ZBDDOp::Restrict] entries carry [n] as (last)
+    numeric operand (the state machine does not use it: DD/ZbddBool.v [zrestrict]
+    has the operand itself; Mgr/HistoryZCache.v [zrestrict_view]) *)
 Definition zkeyN (n : nat) (code : N) (nums : list nat) : list nat :=
   if N.eqb code zcode_restrict then nums ++ [n] else nums.
 Definition zcgetN (n : nat) : C -> N -> list ref -> list nat -> option ref :=
   fun c code args nums => cget c code args (zkeyN n code nums).
 Definition zcaddN (n : nat) : C -> N -> list ref -> list nat -> ref -> C :=
   fun c code args nums r => cadd c code args (zkeyN n code nums) r.
+
+(** [restrict] of oxidd-rules-zbdd/src/apply_rec.rs BEFORE the fix f8637cd: the
+    apply-cache entry is keyed by the operand edges only ([get] / [add] with
+    [&[f, vars]]).  A DEFECTIVE variant, kept for the example
+    [exz_restrict_unkeyed] and for [zrestrict_view]; everything else is
+    [zrestrict] of DD/ZbddBool.v, line by line. *)
+Fixpoint zrestrict_unkeyed (fuel : nat) (s : snap) (c : C) (f vars : ref) (level : nat)
+  : option (snap * C * ref) :=
+  match fuel with
+  | O => None
+  | S n =>
+    match zget s f with
+    | None => None
+    | Some (ZT v) =>
+      if N.eqb v 0 then Some (s, c, f)
+      else
+        match zrestrict_base fuel s vars level with
+        | Some (s1, r) => Some (s1, c, r)
+        | None => None
+        end
+    | Some (ZI fnd) =>
+      match zget s vars, nchildren fnd with
+      | Some vnode, [fhi; flo] =>
+        let flevel := nstored fnd in
+        match lcmp (vlevel vnode) (Some level) with
+        | Eq =>
+          match zkids vnode with
+          | None => None
+          | Some (vhi, vlo) =>
+            if negb (ref_eqb vhi vlo) then
+              if negb (Nat.eqb flevel level) then
+                match zempty s with Some e => Some (s, c, e) | None => None end
+              else
+                match zrestrict_unkeyed n s c (eref fhi) vhi (S level) with
+                | None => None
+                | Some (s1, c1, child) =>
+                  let '(s2, r) := zmk_node1 s1 level child in Some (s2, c1, r)
+                end
+            else if negb (Nat.eqb flevel level) then zrestrict_unkeyed n s c f vhi (S level)
+            else
+              match cget c zcode_restrict [f; vars] [] with
+              | Some r => Some (s, c, r)
+              | None =>
+                match zrestrict_unkeyed n s c (eref fhi) vhi (S level) with
+                | None => None
+                | Some (s1, c1, hi) =>
+                  match zrestrict_unkeyed n s1 c1 (eref flo) vhi (S level) with
+                  | None => None
+                  | Some (s2, c2, lo) =>
+                    let '(s3, r) := zmk_node s2 level hi lo in
+                    Some (s3, cadd c2 zcode_restrict [f; vars] [] r, r)
+                  end
+                end
+              end
+          end
+        | _ =>
+          let sel := if Nat.eqb flevel level then eref flo else f in
+          match zrestrict_unkeyed n s c sel vars (S level) with
+          | None => None
+          | Some (s1, c1, child) =>
+            let '(s2, r) := zmk_node1 s1 level child in Some (s2, c1, r)
+          end
+        end
+      | _, _ => None
+      end
+    end
+  end.
 
 Record hstate_z := mkHZ { hz_s : snap; hz_c : C }.
 
@@ -175,8 +251,6 @@ Definition hstep_z (st : hstate_z) (o : zhop) : option hstate_z :=
   let s := hz_s st in
   let c := hz_c st in
   let fuel := S (nlevels s) in
-  let cget := zcgetN (nlevels s) in
-  let cadd := zcaddN (nlevels s) in
   match o with
   | ZHConst d b =>
     match zconst s b with
